@@ -23,6 +23,7 @@ import (
 
 	"github.com/jamespfennell/gtfs"
 	"github.com/jamespfennell/gtfs/journal"
+	gtfsrt "github.com/jamespfennell/gtfs/proto"
 )
 
 type sliceSource struct {
@@ -103,7 +104,9 @@ func specListString(l []specStop) string {
 
 // c14Feed builds feed number k for symbol sym.
 // value schemes: 0 every value unique per feed; 1 all optional values absent; 2 times constant
-// across feeds, track unique; 3 track constant, times unique; 4 everything constant
+// across feeds, track unique; 3 track constant, times unique; 4 everything constant; 5 as 0 but
+// every update of every feed after the first is flagged NO_DATA, 6 as 0 but SKIPPED (the
+// journal records what the update carries whatever its schedule relationship)
 func c14Feed(k, sym int, absentValues bool) (*gtfs.Realtime, []specStop) {
 	scheme := 0
 	if absentValues {
@@ -152,6 +155,12 @@ func c14FeedScheme(k, sym int, scheme int) (*gtfs.Realtime, []specStop) {
 			u.Departure = &gtfs.StopTimeEvent{Time: &d}
 			u.NyctTrack = &tr
 			sp.arr, sp.dep, sp.track = &a, &d, &tr
+		}
+		if k > 0 && scheme == 5 {
+			u.ScheduleRelationship = gtfsrt.TripUpdate_StopTimeUpdate_NO_DATA
+		}
+		if k > 0 && scheme == 6 {
+			u.ScheduleRelationship = gtfsrt.TripUpdate_StopTimeUpdate_SKIPPED
 		}
 		trip.StopTimeUpdates = append(trip.StopTimeUpdates, u)
 		mirror = append(mirror, sp)
@@ -337,7 +346,7 @@ func c14Shallow(maxLen int) Harness {
 		for k := 0; k < n; k++ {
 			syms = append(syms, c.Free(fmt.Sprintf("feed[%d]", k), c14Symbols))
 		}
-		scheme := c.Choose("value_scheme", 5)
+		scheme := c.Choose("value_scheme", 7)
 		feedTimeScheme = c.Choose("feed_time_scheme", 4)
 		defer func() { feedTimeScheme = 0 }()
 		absent := scheme == 1
@@ -509,7 +518,7 @@ func init() {
 	register(&Check{
 		ID:    "C14",
 		Level: "model_checking",
-		Rule: "one trip; feed symbols {trip omitted, unassigned [AB], assigned x every list over {A,B,C} of length <= 3 (40 lists)} = 42; ALL histories of <= 3 feeds (thorough <= 4), each under 5 value schemes (unique per feed; optional values absent; times constant while the track changes; track constant while times change; all constant) and 4 feed-time schemes (60 s apart; all equal; no timestamps; decreasing), one deviation at a time, journal built for every prefix; plus explicit-state BFS to the fixpoint over histories starting with an assigning feed, states canonicalised to (stop id, marked?)* + trip-marked flag; " +
+		Rule: "one trip; feed symbols {trip omitted, unassigned [AB], assigned x every list over {A,B,C} of length <= 3 (40 lists)} = 42; ALL histories of <= 3 feeds (thorough <= 4), each under 7 value schemes (updates flagged NO_DATA / SKIPPED; unique per feed; optional values absent; times constant while the track changes; track constant while times change; all constant) and 4 feed-time schemes (60 s apart; all equal; no timestamps; decreasing), one deviation at a time, journal built for every prefix; plus explicit-state BFS to the fixpoint over histories starting with an assigning feed, states canonicalised to (stop id, marked?)* + trip-marked flag; " +
 			"non-trivial = distinct histories of >= 2 feeds; oracle = nondeterministic specification automaton (set of admissible lists, refined by each observation)",
 		Assumptions: []string{"when the update's first stop is not in the list, or the update is empty, any prefix of the old list may be kept (the statement only constrains the case where the first stop is present)", "BFS state merging is sound because the journal code branches only on stop ids, nil-ness of marks and the assigned/active flags"},
 		Scenarios: func(tier string) []*Scenario {
